@@ -53,7 +53,7 @@ pub fn all() -> Vec<Regression> {
         Regression { name: "D34-rk23-xout-interpolant", property: "C07", what: "RK23 built with dense_output(false): the interpolant obtained through XOut must reproduce the step's end state (was all zeros)", f: d34 },
         Regression { name: "D35-sol-range-rounding", property: "C06", what: "sol(t) and sol_many must succeed at every reported time (RK23, lin3 on [0, 0.38688] and [0, 0.4461], rtol 1e-2: last time one ulp beyond the last segment)", f: d35 },
         Regression { name: "D36-radau-min-step-longer-than-interval", property: "C04", what: "Radau with min_step = 1e-3 on [0, 5e-4] (both directions) must return, not panic", f: d36 },
-        Regression { name: "D38-complex-division-extreme-scale", property: "C16", what: "complex LU and solve of 2^-600 (1+i) x = 1 and of a 2x2 matrix of size 2^600 must give finite, correct solutions", f: d38 },
+        Regression { name: "D39-stiffness-test-extreme-scale", property: "C13", what: "DOPRI5 / DOP853 on a mildly stiff linear system scaled by 2^-600 and 2^600 must stop with the same status after the same number of steps as the unscaled run", f: d39 },
         Regression { name: "D37-rk4-step-below-one-ulp", property: "C04", what: "RK4 with first_step = 1e-8 from x0 = +-1e9 must return (with a non-success status), not spin at x0", f: d37 },
         Regression { name: "D16-rk4-dense-order", property: "C07", what: "RK4 cubic Hermite dense output must be O(h^4) inside a step", f: d16 },
     ]
@@ -603,29 +603,35 @@ fn d28() -> Result<(), String> {
     Ok(())
 }
 
-fn d38() -> Result<(), String> {
-    use ivp::matrix::{lin_solve_complex, lu_decomp_complex};
-    for k in [-600i32, 600] {
-        let f = 2f64.powi(k);
-        // 1x1: f (1 + i) x = 1  =>  x = (1 - i) / (2 f)
-        let (mut ar, mut ai) = (Matrix::from_vec(1, 1, vec![f]), Matrix::from_vec(1, 1, vec![f]));
-        let mut ip = vec![0usize; 1];
-        lu_decomp_complex(&mut ar, &mut ai, &mut ip).map_err(|e| format!("1x1 matrix 2^{} (1+i) rejected: {:?}", k, e))?;
-        let (mut br, mut bi) = (vec![1.0], vec![0.0]);
-        lin_solve_complex(&ar, &ai, &mut br, &mut bi, &ip);
-        let want = 0.5 / f;
-        if !(br[0] == want && bi[0] == -want) {
-            return Err(format!("2^{} (1+i) x = 1 gives x = ({:e}, {:e}), expected ({:e}, {:e})", k, br[0], bi[0], want, -want));
-        }
-        // 2x2: f [[1, i], [i, 2]] x = f (1 + i, 2 + i)  =>  x = (1, 1)
-        let (mut ar, mut ai) = (Matrix::from_vec(2, 2, vec![f, 0.0, 0.0, 2.0 * f]), Matrix::from_vec(2, 2, vec![0.0, f, f, 0.0]));
-        let mut ip = vec![0usize; 2];
-        lu_decomp_complex(&mut ar, &mut ai, &mut ip).map_err(|e| format!("2x2 matrix of size 2^{} rejected: {:?}", k, e))?;
-        let (mut br, mut bi) = (vec![f, 2.0 * f], vec![f, f]);
-        lin_solve_complex(&ar, &ai, &mut br, &mut bi, &ip);
-        let err = (br[0] - 1.0).abs().max((br[1] - 1.0).abs()).max(bi[0].abs()).max(bi[1].abs());
-        if !(err <= 1e-14) {
-            return Err(format!("2x2 system of size 2^{}: x = ({:e}+{:e}i, {:e}+{:e}i), expected (1, 1)", k, br[0], bi[0], br[1], bi[1]));
+fn d39() -> Result<(), String> {
+    let l = 200.0;
+    let p = crate::problems::Prob {
+        name: "oscillator with a relaxing follower".into(),
+        n: 3,
+        f: std::sync::Arc::new(move |_t, y, d| {
+            d[0] = y[1];
+            d[1] = -y[0];
+            d[2] = -l * (y[2] - y[0]);
+        }),
+        jac: None,
+        flow: None,
+        y0: vec![1.0, 0.0, 1.0],
+        linear_homogeneous: true,
+    };
+    for m in [Method::DOPRI5, Method::DOP853] {
+        let c = Cfg::new(m, 0.0, 60.0, &p.y0).tol(1e-3, 1e-6);
+        let b = run(&p, &c);
+        let sb = sol_of(&b)?;
+        for k in [-600i32, 600] {
+            let f = 2f64.powi(k);
+            let mut cs = c.clone();
+            cs.y0 = c.y0.iter().map(|v| v * f).collect();
+            cs.atol = Tol::S(1e-6 * f);
+            let r = run(&p, &cs);
+            let s = sol_of(&r)?;
+            if s.status != sb.status || s.naccpt != sb.naccpt {
+                return Err(format!("{} scaled by 2^{}: status {:?} after {} accepted steps, unscaled {:?} after {}", mname(m), k, s.status, s.naccpt, sb.status, sb.naccpt));
+            }
         }
     }
     Ok(())
